@@ -13,6 +13,7 @@
 mod api;
 mod client;
 mod client_h2;
+mod client_tls;
 mod exec;
 mod http1;
 mod net;
@@ -557,6 +558,11 @@ fn main() {
     let code = match args.get(1).map(|s| s.as_str()) {
         Some("run") if args.len() >= 3 => cmd_run(&args[2], tier_from(args.get(3))),
         Some("replay") if args.len() >= 3 => cmd_replay(&args[2]),
+        Some("tlshello") => {
+            let b = client_tls::client_hello_bytes();
+            println!("{}", b.iter().map(|x| format!("{:02x}", x)).collect::<String>());
+            0
+        }
         Some("hunt") if args.len() >= 3 => cmd_hunt(&args[2], tier_from(args.get(3))),
         Some("runjob") if args.len() >= 5 => {
             cmd_runjob(&args[2], tier_from(args.get(3)), args[4].parse().unwrap_or(0), None)
